@@ -247,6 +247,19 @@ func (fa *FuncAn) placeContent(out *[]Place, at ssa.Instruction, off Off, src ss
 	if cv, ok := src.(*ssa.Convert); ok && isByteSeq(cv.X.Type()) && isByteSeq(cv.Type()) {
 		return fa.placeContent(out, at, off, cv.X)
 	}
+	// strings.Join(xs, "") / bytes.Join(xs, nil) is the concatenation of the elements in order
+	if call, ok := src.(*ssa.Call); ok && len(call.Call.Args) == 2 {
+		if f := call.Call.StaticCallee(); f != nil && (calleeName(f) == "strings.Join" || calleeName(f) == "bytes.Join") {
+			emptySep := false
+			if k, isK := call.Call.Args[1].(*ssa.Const); isK && (k.Value == nil || (k.Value.Kind() == constant.String && constant.StringVal(k.Value) == "")) {
+				emptySep = true
+			}
+			if emptySep {
+				*out = append(*out, mkOpenPlace(off, "Σ("+fa.R.R(call.Call.Args[0])+"[$i0])", at))
+				return off.add(fa.lenOff(src))
+			}
+		}
+	}
 	end := off.add(fa.lenOff(src))
 	*out = append(*out, mkPlace(off, end, fa.R.R(src), at))
 	return end
